@@ -14,6 +14,7 @@ mod queue_history;
 mod amend_race;
 mod search;
 mod package_faults;
+mod legs_fuzz;
 mod match_result_contract;
 mod uuid_contract;
 
@@ -116,6 +117,7 @@ fn run(v: serde_json::Value) -> Result<Report, String> {
         "search" => search::run(&v, &mut rep)?,
         "package_faults" => package_faults::run(&v, &mut rep)?,
         "uuid_contract" => uuid_contract::run(&v, &mut rep)?,
+        "legs_fuzz" => legs_fuzz::run(&v, &mut rep)?,
         "match_result_contract" => match_result_contract::run(&v, &mut rep)?,
         k => return Err(format!("unknown kind {k}")),
     }
